@@ -107,6 +107,9 @@ var c16Corpus = []string{
 	// relations that regenerate themselves in updateResolver's fixpoint loop
 	"package main\n\nlet loop x = (x = [x], x = [[x]])\n",
 	"package main\n\nlet loop2 x y = (x = [y], y = [[x]], x = y)\n",
+	// ... and double in number every round
+	"package main\n\nlet loop x = (x = (x, x), x = ((x, x), (x, x)))\n",
+	"package main\n\nlet loop x y = (x = (y, y), y = ((x, x), (x, y)), x = y)\n",
 	"package main\n\nlet loop3 f = (f = (fun a -> f), f = (fun a -> (fun b -> f)))\n",
 	"package main\n\nlet f x = (x, f)\n",
 	"package main\n\nlet f (x:int) =\n  match x with\n",
@@ -384,6 +387,10 @@ func runC16(c *Ctx) {
 	c.Lap("processes")
 	c16Faults(c)
 	c.Lap("faults")
+	if c.Replay == "" {
+		c16Scale(c)
+		c.Lap("scale")
+	}
 	c16Driver(c, rng.Fork())
 	c.Lap("driver-model")
 	c16Scanner(c, rng, cases)
